@@ -543,3 +543,50 @@ STRUCTURAL_OPS = {"sum", "prod", "amax", "amin", "all", "any", "einsum", "matmul
 def is_nontrivial(spec: dict[str, Any]) -> bool:
     ks = node_kinds(spec)
     return len(ks) >= 3 and any(k in STRUCTURAL_OPS for k in ks)
+
+
+def _kind(dt: Any) -> str:
+    dt = np.dtype(dt)
+    if dt.kind == "f":
+        return f"f{dt.itemsize}"
+    if dt.kind == "c":
+        return "c"
+    return dt.kind
+
+
+def signature(spec: dict[str, Any]) -> str:
+    """Short mechanism-like description of a (minimal) spec: op(operand kinds) per node."""
+    try:
+        sh = Shadow(spec, 0)
+        vals = sh.vals
+    except Exception:  # noqa: BLE001
+        vals = {}
+    inputs = {i["id"]: i for i in spec["inputs"]}
+    parts = []
+    for n in spec["nodes"]:
+        args = []
+        for a in n["args"]:
+            if is_ref(a):
+                if a in inputs:
+                    k = _kind(inputs[a]["dtype"])
+                    shp = inputs[a]["shape"]
+                elif a in vals and not isinstance(vals[a], dict):
+                    k = _kind(np.asarray(vals[a]).dtype)
+                    shp = list(np.asarray(vals[a]).shape)
+                else:
+                    k, shp = "?", []
+                if 0 in shp:
+                    k += "[empty]"
+                args.append(k)
+            else:
+                args.append(f"{a[0]}-{a[1]}")
+        extra = ""
+        p = n.get("params", {})
+        if n["op"] == "astype":
+            extra = "->" + _kind(p["dtype"])
+        if n["op"] in ("full", "zeros", "ones", "eye", "arange"):
+            extra = ":" + _kind(p["dtype"]) + ("[empty]" if 0 in p.get("shape", [1]) else "")
+        parts.append(f"{n['op']}({','.join(args)}){extra}")
+    if not parts:
+        parts = ["<inputs-only>"]
+    return ";".join(parts)[:200]
